@@ -333,3 +333,11 @@ RULES = [
     ("C09.DISPLAY", "Num's Display (integer iff denominator equals one)", p_c06.rule_display),
     ("C09.EMBED", "level-2 stack restore embeds quoted Display text", rule_embed),
 ]
+
+
+def rule_restore(ctx, R):
+    from . import p_c03
+    return p_c03.rule_units(ctx, R)
+
+
+RULES.append(("C09.RESTORE", "every non-empty stack of the pre-executed state is written into the emitted program, at its own index, and read back with Num::from_string (shared with C03.UNITS)", rule_restore))
